@@ -8,7 +8,7 @@ HUB_ASSUMPTIONS = [
     "fakes for mDNS (api.MdnsInterface), the application (api.HubReaderInterface) and registered connections (api.ShipConnectionInterface) record calls",
     "pre-state: two remote SKIs with arbitrary trusted flag / pairing state / attempt counter / attempt-running flag / registered connection, constrained by INV: trusted or queued => user intent or an earlier hello-ok; INV is asserted on the post-state (inductive)",
     "state reports come only from states a connection enters (not InitStart / unused constants): established by C04's state-graph check",
-    "canonical SKI spellings only (other spellings are C15's subject); RAND: rand.Intn(n) in [0,n)",
+    "SKI arguments of application calls in the canonical and in a display spelling (upper case, blanks, dashes); the general spelling invariance is C15's subject; RAND: rand.Intn(n) in [0,n)",
 ]
 
 
